@@ -799,7 +799,8 @@ def _process_match(
                 literal = m.group(group) or ''
                 _copy_part(literal, shift + delta, parts, smap, emap)
                 mask.extend(prev_mask[(start+1):(start+len(literal)+1)])
-                end = m.start(group+1) if group < m.lastindex else m.end()
+                end = (m.start(group+1) if group < (m.lastindex or 0)
+                       else m.end())
             else:
                 # block if overlap with mask
                 if any(prev_mask[start+1:end+1]):
